@@ -66,9 +66,15 @@ def cases(draw, tier):
             opts += ["kronsum", "kronsum"]
         if entry in ("pow", "sqrt", "isqrt"):
             opts += ["kron", "kron"]
+        if entry == "pow":
+            opts += ["cong_kron_diag"]  # D K D declared SelfAdjoint: power -1 is the factor-wise inverse
         struct = draw(st.sampled_from(opts))
     else:
         struct = draw(st.sampled_from(["kron", "bd", "bd_of_kron", "kron_of_bd", "diag"]))
+    if struct == "cong_kron_diag":
+        return {"entry": "pow", "struct": struct, "fact": draw(st.sampled_from(FACT2)), "block": 4, "seed": draw(st.integers(0, 10**5)),
+                "ncol": draw(st.sampled_from([0, 2])), "with_alg": draw(st.booleans()), "cplx": False,
+                "alg": draw(st.sampled_from(["Auto", "Eigh", "Eigh", "Eig"])), "exponent": -1}
     return {"entry": entry, "struct": struct, "fact": draw(st.sampled_from(FACT3 if struct in ("kron", "kronsum") and draw(st.booleans()) else FACT2)),
             "block": draw(st.integers(4, 16)), "seed": draw(st.integers(0, 10**5)), "ncol": draw(st.sampled_from([0, 2])),
             "with_alg": draw(st.booleans()), "cplx": draw(st.integers(1, 5)) == 1,
@@ -140,6 +146,12 @@ def build(case):
             leaves.append(p.nbytes * 2)
             A = ops.Permutation(p, dtype=K.dtype) @ A @ ops.Tridiagonal(np.ones(K.shape[0] - 1, dtype=K.dtype), 3 * np.ones(K.shape[0], dtype=K.dtype), np.ones(K.shape[0] - 1, dtype=K.dtype))
             leaves.append(3 * d.nbytes)
+    elif s == "cong_kron_diag":
+        K = kron(fact)
+        d = 1.0 + rng.random(K.shape[0])
+        leaves.append(d.nbytes)
+        D = ops.Diagonal(d.astype(K.dtype))
+        A = cola.SelfAdjoint(D @ K @ D)
     elif s == "scaled_kron":
         A = 2.5 * kron(fact)
     elif s == "diag":
